@@ -763,6 +763,15 @@ impl Group {
         // ---- aftermath: let blocked user code go on, resume reading ----
         rec.inline_gate.open();
         rec.hold.open();
+        // the writer is jammed (the client is not reading) and the token was cancelled: the disconnect
+        // callbacks must run when the reader's block is left, not after the writer has been awaited
+        let mut ended = false;
+        if phase == "queued" && scen.cause == "cancel" {
+            ended = wait_evt(ev_rx, |e| matches!(e, Evt::Ended)).await;
+            if !ended {
+                res.problems.push(("lifecycle.disconnect.after_writer_drain".into(), format!("embedder cancelled while the writer is jammed by a peer that does not read: the disconnect callbacks did not run within {:?} (they wait for the writer)", WD)));
+            }
+        }
         if let Some(w) = ws.as_mut() {
             if let Err(e) = read_frames(w, &mut res.wire, |_| false).await {
                 res.notes.push(format!("client-eof-{e}"));
@@ -770,7 +779,7 @@ impl Group {
         }
         drop(ws);
         // ---- the end: the last disconnect callback has been invoked ----
-        if !wait_evt(ev_rx, |e| matches!(e, Evt::Ended)).await {
+        if !ended && !wait_evt(ev_rx, |e| matches!(e, Evt::Ended)).await {
             res.problems.push(("lifecycle.disconnect.missing".into(), format!("last disconnect callback not invoked within {:?} after the connection ended ({} / {})", WD, scen.phase, scen.cause)));
         }
         if phase == "parked" {
@@ -1191,6 +1200,13 @@ fn parse_replay(ops: &[String]) -> Vec<AnyPlan> {
                         _ => RxStep::Close { c, cause: w.get(4).unwrap_or(&"drop").to_string() },
                     };
                     p.steps.push(step);
+                }
+            }
+            Some("hs") if w.len() >= 5 => {
+                let cfg = if w[2] == "-" { String::new() } else { w[2].to_string() };
+                match plans.last_mut() {
+                    Some(AnyPlan::Hs(p)) if p.cfg == cfg => p.reqs.push((w[1].into(), w[3].into(), w[4].into())),
+                    _ => plans.push(AnyPlan::Hs(HsPlan { cfg, reqs: vec![(w[1].into(), w[3].into(), w[4].into())] })),
                 }
             }
             Some("group") if w.len() >= 10 => {
@@ -1635,9 +1651,165 @@ fn plan_rx(rng: &mut Rng, g: usize) -> RxPlan {
     RxPlan { g, entry, steps }
 }
 
+// ---------------------------------------------------------------------------------------------
+// handshakes (`hs` op lines): which upgrade requests the built-in accept loop accepts for a configured
+// path, what the handshake-aware connect hook sees, what `on_error` reports
+// ---------------------------------------------------------------------------------------------
+struct HsPlan {
+    cfg: String,
+    reqs: Vec<(String, String, String)>, // idx, request path, end
+}
+
+#[derive(Default)]
+struct HsCount {
+    connect: AtomicU64,
+    disconnect: AtomicU64,
+    hs_err: AtomicU64,
+    conn_err: AtomicU64,
+    ctx: Mutex<Vec<String>>,
+}
+
+/// The specification of the path check, written independently of the crate: strip trailing slashes from
+/// the configured path, make it start with one slash; the request path must equal it verbatim.
+fn hs_spec(cfg: &str, req: &str) -> bool {
+    let expected = if cfg.is_empty() || cfg == "/" {
+        "/".to_string()
+    } else {
+        let mut body = cfg;
+        while body.ends_with('/') {
+            body = &body[..body.len() - 1];
+        }
+        if cfg.starts_with('/') { body.to_string() } else { format!("/{body}") }
+    };
+    req == expected
+}
+
+async fn hs_until(counter: &AtomicU64, at_least: u64) -> bool {
+    let t0 = Instant::now();
+    while counter.load(Ordering::SeqCst) < at_least {
+        if t0.elapsed() > WD {
+            return false;
+        }
+        tokio::time::sleep(Duration::from_millis(1)).await;
+    }
+    true
+}
+
+async fn run_hs(plan: HsPlan, server_rt: &tokio::runtime::Runtime, out: &Mutex<Out>) {
+    let cnt = Arc::new(HsCount::default());
+    let (c1, c2, c3, c4) = (cnt.clone(), cnt.clone(), cnt.clone(), cnt.clone());
+    let server = WebSocketServer::new(Router::new().with_json("/echo", |v: Value| Ok(v)))
+        .on_peer_connect(move |_p: PeerHandle| {
+            c1.connect.fetch_add(1, Ordering::SeqCst);
+        })
+        .on_peer_connect_with_handshake(move |_p: &PeerHandle, hs: &HandshakeContext| {
+            c2.ctx.lock().unwrap().push(format!("{}?{}", hs.path(), hs.query().unwrap_or("-")));
+        })
+        .on_peer_disconnect(move |_id: PeerId| {
+            c3.disconnect.fetch_add(1, Ordering::SeqCst);
+        })
+        .on_error(move |e| match e {
+            repe::ConnectionError::Handshake(_) => {
+                c4.hs_err.fetch_add(1, Ordering::SeqCst);
+            }
+            repe::ConnectionError::Connection(_) => {
+                c4.conn_err.fetch_add(1, Ordering::SeqCst);
+            }
+            _ => {}
+        });
+    let l = std::net::TcpListener::bind("127.0.0.1:0").expect("bind");
+    l.set_nonblocking(true).unwrap();
+    let addr = l.local_addr().unwrap();
+    let cfgpath = plan.cfg.clone();
+    let task = server_rt.handle().spawn(async move {
+        let l = tokio::net::TcpListener::from_std(l).unwrap();
+        let _ = server.serve_listener(l, &cfgpath).await;
+    });
+    let mut results: Vec<(String, String, Vec<(String, String)>)> = Vec::new();
+    for (idx, req, end) in &plan.reqs {
+        let line = format!("hs {} {} {} {}", idx, if plan.cfg.is_empty() { "-" } else { &plan.cfg }, req, end);
+        let mut fails: Vec<(String, String)> = Vec::new();
+        let (c0, d0, h0, e0) = (cnt.connect.load(Ordering::SeqCst), cnt.disconnect.load(Ordering::SeqCst), cnt.hs_err.load(Ordering::SeqCst), cnt.conn_err.load(Ordering::SeqCst));
+        cnt.ctx.lock().unwrap().clear();
+        let mut accepted = false;
+        let mut note = None;
+        match tokio::time::timeout(WD, tokio::net::TcpStream::connect(addr)).await {
+            Ok(Ok(s)) => {
+                let b: BoxIo = Box::new(s);
+                match tokio::time::timeout(WD, tokio_tungstenite::client_async(format!("ws://{}{}?who=7", addr, req), b)).await {
+                    Ok(Ok((mut ws, _))) => {
+                        accepted = true;
+                        if !hs_until(&cnt.connect, c0 + 1).await {
+                            note = Some("hs-connect-callback-watchdog");
+                        }
+                        let _ = match end.as_str() {
+                            "close" => ws.send(WsMsg::Close(None)).await,
+                            "text" => ws.send(WsMsg::Text("x".into())).await,
+                            _ => ws.send(WsMsg::Binary(vec![1, 2, 3])).await,
+                        };
+                        let mut sink = Vec::new();
+                        let _ = read_frames(&mut ws, &mut sink, |_| false).await;
+                        drop(ws);
+                        if !hs_until(&cnt.disconnect, d0 + 1).await {
+                            fails.push(("lifecycle.disconnect.missing".into(), "disconnect callback not invoked after the accepted connection ended".into()));
+                        }
+                        if end != "close" {
+                            hs_until(&cnt.conn_err, e0 + 1).await;
+                        }
+                    }
+                    Ok(Err(_)) => {
+                        hs_until(&cnt.hs_err, h0 + 1).await;
+                    }
+                    Err(_) => note = Some("hs-handshake-watchdog"),
+                }
+            }
+            _ => note = Some("hs-tcp-connect"),
+        }
+        tokio::time::sleep(Duration::from_millis(15)).await;
+        let (dc, dd, dh, de) = (cnt.connect.load(Ordering::SeqCst) - c0, cnt.disconnect.load(Ordering::SeqCst) - d0, cnt.hs_err.load(Ordering::SeqCst) - h0, cnt.conn_err.load(Ordering::SeqCst) - e0);
+        let ctx = cnt.ctx.lock().unwrap().join("|");
+        if accepted != hs_spec(&plan.cfg, req) {
+            fails.push(("lifecycle.handshake.path_check".into(), format!("configured path {:?}, request path {:?}: accepted={} but the request path {} the normalised configured path", plan.cfg, req, accepted, if accepted { "differs from" } else { "equals" })));
+        }
+        if !accepted && (dc > 0 || dd > 0) {
+            fails.push(("lifecycle.handshake_failure.hooks_fired".into(), format!("rejected upgrade ({:?} vs {:?}) but {dc} connect / {dd} disconnect callbacks fired", plan.cfg, req)));
+        }
+        if accepted && dd > 1 {
+            fails.push(("lifecycle.disconnect.duplicate".into(), format!("{dd} disconnect callbacks for one accepted connection")));
+        }
+        if dh + de > 1 {
+            fails.push(("lifecycle.on_error.duplicate".into(), format!("{dh} handshake + {de} connection errors reported for one connection")));
+        }
+        let obs = format!("{} {} hooks={}/{} ctx={} err=h{}c{}", idx, if accepted { "accept" } else { "reject" }, dc, dd, if ctx.is_empty() { "-".to_string() } else { ctx }, dh, de);
+        let _ = note.map(|n| out.lock().unwrap().count(&format!("note.{n}")));
+        results.push((line, obs, fails));
+    }
+    task.abort();
+    let mut o = out.lock().unwrap();
+    let replay: Vec<String> = results.iter().map(|r| r.0.clone()).collect();
+    for (line, obs, fails) in results {
+        for (sig, detail) in fails {
+            o.oracle_fail(&sig, &format!("[{line}] {detail}"), &replay);
+        }
+        o.count(&format!("hs.{}", obs.split(' ').nth(1).unwrap_or("x")));
+        o.case(&line, &obs, true);
+    }
+}
+
+fn plan_hs() -> Vec<HsPlan> {
+    let cfgs = ["", "/", "repe", "/repe", "repe/", "/repe//", "a/b", "/a/b/", "//", "/x-y_z"];
+    let reqs = ["/", "/repe", "/repe/", "/a/b", "/a/b/", "/a", "/x-y_z", "/other"];
+    let ends = ["close", "malformed", "text"];
+    cfgs.iter()
+        .enumerate()
+        .map(|(i, c)| HsPlan { cfg: c.to_string(), reqs: reqs.iter().enumerate().map(|(j, r)| (format!("h{i}.{j}"), r.to_string(), ends[(i + j) % 3].to_string())).collect() })
+        .collect()
+}
+
 enum AnyPlan {
     Life(Plan),
     Rx(RxPlan),
+    Hs(HsPlan),
 }
 
 fn main() {
@@ -1651,7 +1823,8 @@ fn main() {
         None => {
             // registry scripts first (cheap), then the lifecycle matrix
             let nrx = if args.thorough() { 600 } else { 60 };
-            let mut v: Vec<AnyPlan> = (0..nrx).map(|i| AnyPlan::Rx(plan_rx(&mut rng, 100_000 + i))).collect();
+            let mut v: Vec<AnyPlan> = plan_hs().into_iter().map(AnyPlan::Hs).collect();
+            v.extend((0..nrx).map(|i| AnyPlan::Rx(plan_rx(&mut rng, 100_000 + i))));
             v.extend(plan(&mut rng, args.thorough()).into_iter().map(AnyPlan::Life));
             v
         }
@@ -1676,6 +1849,7 @@ fn main() {
                     run_group(p.cfg, p.scens, &server_rt, &out, settle).await;
                 }
                 AnyPlan::Rx(p) => run_rx(p, &server_rt, &out).await,
+                AnyPlan::Hs(p) => run_hs(p, &server_rt, &out).await,
             }
             // a failing input has been found and recorded with its replay: no need to wait out the watchdogs
             // of every later group
